@@ -405,6 +405,12 @@ func (d *OrderedDaemon) clear() {
 // Shutdown signals all background worker of the daemon shut down.
 // This call doesn't await termination of the background workers.
 func (d *OrderedDaemon) Shutdown() {
+	// the termination of the workers is not awaited, the daemon is stopped all the same when the call returns: no
+	// worker can be added or started from here on (see shutdown)
+	d.lock.Lock()
+	d.stopped.Store(true)
+	d.lock.Unlock()
+
 	go d.stopOnce.Do(d.shutdown)
 }
 
